@@ -10,6 +10,7 @@ from typing import (
     ClassVar,
     Dict,
     List,
+    Literal,
     Optional,
     Set,
     Tuple,
@@ -288,6 +289,16 @@ else:
                 f"value does not match any type in Union[{', '.join(type_names)}]",
                 current_path,
                 "union_mismatch",
+            )
+
+        # Literal types: the value must be one of the listed constants
+        if origin is Literal:
+            if value in get_args(expected):
+                return value
+            raise ValidationError(
+                f"value must be one of {get_args(expected)}",
+                current_path,
+                "literal_error",
             )
 
         # Simple type validation
